@@ -1341,6 +1341,11 @@ def gen_tls(r, n, tier):
                 cases.append(f"tls cli {mn} ca {vers} {c} {name}")
             for c, e in cli_ss:
                 cases.append(f"tls cli {mn} ss {vers} {c} - {e}")
+            # a server that sends a second certificate after its own: irrelevant under an authority,
+            # refused by the self-signed verifier (which accepts exactly one certificate)
+            cases.append(f"tls cli {mn} ca {vers} srv_ok+cli_viewer test.com")
+            cases.append(f"tls cli {mn} ca {vers} srv_wrongname+srv_ok test.com")
+            cases.append(f"tls cli {mn} ss {vers} ss_b+ss_a - ss_b")
             # the deprecated constructor `TlsClientConfig::new` and a DNS host name
             for c, name in (("srv_ok", "test.com"), ("srv_wrongname", "test.com"), ("srv_ip", "127.0.0.1")):
                 cases.append(f"tls cli {mn} cad {vers} {c} {name}")
